@@ -595,7 +595,7 @@ static void judge_long_run(const glue::Files &files, int budget, Result &r) {
   if ((long)temp_occ.size() != expected_names) {
     r.fail("hygiene:shared-between-steps", std::to_string(uses + nests) + " expansion steps of temporary-using macros must introduce " +
                                                std::to_string(expected_names) + " distinct temporary names, the expanded stream has " +
-                                               std::to_string(temp_occ.size()) + " (two steps share a name)");
+                                               std::to_string(temp_occ.size()) + " (two steps share a name, or one step has two names for one temporary)");
     return;
   }
   for (auto &e : temp_occ)
